@@ -4,6 +4,8 @@ import (
 	"go/constant"
 	"go/token"
 	"go/types"
+	"sort"
+	"strings"
 
 	"golang.org/x/tools/go/ssa"
 )
@@ -574,7 +576,6 @@ func infeasibleInContext(b *ssa.BasicBlock) bool {
 	return false
 }
 
-
 // alwaysRuns: every path from the function's entry to a return passes through the instruction's
 // block (no branch, written as one condition or as a disjunction of several, skips it). For
 // functions without loops around the instruction.
@@ -604,4 +605,87 @@ func alwaysRuns(in ssa.Instruction) bool {
 		stack = append(stack, x.Succs...)
 	}
 	return true
+}
+
+// renamedAs: functions of the current tree that are a reviewed function under a new name.
+// A function listed in the inventory that is gone, and exactly one function that is not listed,
+// in the same package, on the same receiver, with the same parameter types: a rename. The new
+// function answers to the reviewed name everywhere (fnID, calleeID, World.Fn), so renaming an
+// unexported function does not make its rules lose their subject.
+var renamedAs = map[*ssa.Function]string{}
+
+func idPrefix(id string) string {
+	if i := strings.LastIndex(id, "."); i >= 0 {
+		return id[:i]
+	}
+	return ""
+}
+
+func (w *World) findRenames() {
+	if len(frozenNames) == 0 || !inventoryComplete {
+		return
+	}
+	present := map[string]bool{}
+	var fresh []*ssa.Function
+	pkgs := map[string]bool{}
+	for _, f := range w.lunarFns {
+		if f.Parent() != nil || f.Synthetic != "" || origin(f) != f || f.Blocks == nil {
+			continue
+		}
+		id := fnID(f)
+		present[id] = true
+		pkgs[idPrefix(id)] = true
+		if _, known := frozenNames[id]; !known && f.Name() != "init" && f.Name() != "main" {
+			fresh = append(fresh, f)
+		}
+	}
+	if len(fresh) == 0 {
+		return
+	}
+	typesOf := func(ps []string) string {
+		var ts []string
+		for _, p := range ps {
+			if i := strings.Index(p, "|"); i >= 0 {
+				ts = append(ts, p[i+1:])
+			}
+		}
+		return strings.Join(ts, ";")
+	}
+	var missing []string
+	for id := range frozenNames {
+		if !present[id] && pkgs[idPrefix(id)] {
+			missing = append(missing, id)
+		}
+	}
+	sort.Strings(missing)
+	used := map[*ssa.Function]bool{}
+	for _, id := range missing {
+		want := typesOf(frozenNames[id].Params)
+		var cands []*ssa.Function
+		for _, f := range fresh {
+			if used[f] || idPrefix(fnID(f)) != idPrefix(id) {
+				continue
+			}
+			var ps []string
+			for _, p := range f.Params {
+				ps = append(ps, p.Name()+"|"+p.Type().String())
+			}
+			if typesOf(ps) == want {
+				cands = append(cands, f)
+			}
+		}
+		if len(cands) == 1 {
+			// and no second reviewed function of that shape is missing too
+			n := 0
+			for _, other := range missing {
+				if idPrefix(other) == idPrefix(id) && typesOf(frozenNames[other].Params) == want {
+					n++
+				}
+			}
+			if n == 1 {
+				renamedAs[cands[0]] = id
+				used[cands[0]] = true
+			}
+		}
+	}
 }
